@@ -27,7 +27,7 @@ m = dict(
     version=1,
     setup_cmd='./check --setup',
     hooks=dict(guard='verif', enable='go build -tags verif (add-only *_verif.go files)',
-               baseline_off_cmd='cd /repo && GOFLAGS=-mod=mod GOPROXY=off go test -vet=off -count=1 -timeout 25m ./...',
+               baseline_off_cmd='for m in . examples cmd/rdfkit; do (cd /repo/$m && GOFLAGS=-mod=mod GOPROXY=off go test -vet=off -count=1 -timeout 25m ./...) || exit 1; done',
                source_commits=pt.HOOK_COMMITS, add_only=True),
     engines=[dict(name='coq-proof+correspondence', path='/verif/check',
                   serves_properties=[c['property_id'] for c in checks],
